@@ -1,4 +1,5 @@
 import Bpmn.Props.C04
+import Bpmn.Props.C04Current
 open Bpmn.Props.C04
 #print axioms C04_holds
 #print axioms xgDecide_first_true
@@ -8,3 +9,4 @@ open Bpmn.Props.C04
 #print axioms xg_step_independent
 #print axioms xg_single_na_na_report
 #print axioms xg_single_na_report_na
+#print axioms Bpmn.Props.C04Current.xpath_fact_known
